@@ -14,6 +14,12 @@ from typing import Any
 from .. import e2e, gens
 from ..common import Hang, Rng, hx, unhx, watchdog
 from ..runner import Check
+from . import c07_discr_obs as _discr_obs
+
+# the pass-through wrapper around Parser.__apply_discriminator_type must be in place BEFORE the first generate() of the
+# process: CPython 3.12.1 keeps calling the function it saw first at that (name-mangled) call site when the class
+# attribute is replaced later (observed; the wrapper records only while c07_discr observes a run)
+_discr_obs._install()
 from ..translate import enum_sites
 from ..translate import unicode as uni
 
@@ -1659,6 +1665,11 @@ def known_findings(ck: Check) -> None:
 
             enum_callers.names_case(probe, camp, w["enum_values"], cfg, w["model"], w["position"])
             still = bool(probe.failures)
+        elif w["level"] == "discriminator":
+            from . import c07_discr
+
+            c07_discr.case(probe, camp, w["discr_shape"], w["model"])
+            still = bool(probe.failures)
         elif w["level"] == "typeddict_inheritance":
             td_case(probe, camp, w["td_doc"], cfg, w.get("opts", {}), w.get("target", "3.12"), shrink=False)
             still = bool(probe.failures)
@@ -1786,9 +1797,16 @@ def run(ck: Check) -> None:
         campaign_e2e(ck, 700 if quick else 6000, names)
         campaign_typeddict_syntax(ck)
     if not hung(ck):
+        from . import c07_discr
+
+        c07_discr.run_campaigns(ck, 60 if quick else 1500)
+    if not hung(ck):
         campaign_td_objects(ck, 400 if quick else 6000)
         campaign_td_inherit(ck, 220 if quick else 4000)
     ck.search_hooks.append(search_prefix)
+    from . import c07_discr as _discr
+
+    ck.search_hooks.append(_discr.search)
     ck.search_hooks.append(search_td)
     ck.search_hooks.append(search_names)
     known_findings(ck)
@@ -1806,6 +1824,10 @@ def replay(ck: Check, path: str) -> int:
         enum_callers.names_case(ck, camp, inp["enum_values"], cfg, inp["model"], inp["position"], inp.get("opts"))
     elif "td_doc" in inp:
         td_case(ck, camp, inp["td_doc"], cfg, inp.get("opts", {}), inp.get("target", "3.12"), shrink=False)
+    elif "discr_shape" in inp:
+        from . import c07_discr
+
+        c07_discr.replay_input(ck, camp, inp)
     elif "model" in inp and "names" in inp:
         e2e_case(ck, camp, inp["names"], cfg, inp["model"], inp.get("required", False), inp.get("nested"), inp.get("bools"))
     elif "names" in inp:
